@@ -226,3 +226,117 @@ func waitFor(timeout time.Duration, cond func() bool) bool {
 		time.Sleep(time.Millisecond)
 	}
 }
+
+// TestC09MuxChannels: several channels of one multiplexer have different header sizes; each must
+// report and honour its own MTU regardless of the order in which the channels are used.
+func TestC09MuxChannels(t *testing.T) {
+	const sub = "C09.mux_several_channels"
+	ev.Rule(sub, "rapid: one multiplexer (string or varint kind, whose header size depends on the channel id) over an in-memory transport of MTU 64-1500 with a recording decorator beneath; 2-5 channels with ids of differing encoded length; the channels are used in a generated order, each probed with Tell/Ask at MTU()-1, MTU(), MTU()+1. Oracle as mtu_honest, per channel: <= MTU() never refused for size here or beneath and delivered intact; > MTU() refused with the MTU error. non-trivial = channels with >= 2 distinct header sizes; distinct by (kind, ids, order, inner MTU)")
+	rapid.Check(t, func(t *rapid.T) {
+		kind := rapid.SampledFrom([]string{"string", "varint"}).Draw(t, "kind")
+		inner := rapid.SampledFrom([]int{64, 100, 300, 1500}).Draw(t, "innerMTU")
+		n := rapid.IntRange(2, 5).Draw(t, "channels")
+		var ids []string
+		seen := map[string]bool{}
+		for len(ids) < n {
+			var id string
+			if kind == "string" {
+				id = string(bytes.Repeat([]byte{byte('a' + len(ids))}, rapid.SampledFrom([]int{0, 1, 3, 9, 20, 40}).Draw(t, "nameLen")))
+			} else {
+				id = fmt.Sprint(rapid.SampledFrom([]uint64{0, 1, 127, 128, 16383, 16384, 1 << 21, 1 << 35, 1 << 63}).Draw(t, "id"))
+			}
+			if seen[id] {
+				id += "x"
+				if kind == "varint" {
+					id = fmt.Sprint(len(ids) + 2)
+				}
+			}
+			if seen[id] {
+				continue
+			}
+			seen[id] = true
+			ids = append(ids, id)
+		}
+		spec := stack.Spec{Base: "mem", BaseMTU: inner, QueueLen: 1024, Layers: []stack.Layer{{Kind: "rec"}}}
+		w, err := stack.Build(spec, 2, 0)
+		if err != nil {
+			t.Fatalf("harness: %v", err)
+		}
+		a, b := w.Nodes[0], w.Nodes[1]
+		ca, err := stack.OpenMux(kind, p2p.ComposeAskSwarm[stack.Addr](a.S, a.A), true, ids)
+		if err != nil {
+			t.Fatalf("OpenMux: %v", err)
+		}
+		cb, err := stack.OpenMux(kind, p2p.ComposeAskSwarm[stack.Addr](b.S, b.A), true, ids)
+		if err != nil {
+			t.Fatalf("OpenMux: %v", err)
+		}
+		ctx, cancel := context.WithCancel(context.Background())
+		// shut down top-down while the receivers are still draining, then stop the receivers
+		defer func() {
+			for _, c := range append(append([]stack.Swarm{}, ca...), cb...) {
+				c.Close()
+			}
+			w.Close()
+			cancel()
+		}()
+		cr := serveChannels(ctx, cb)
+		order := rapid.Permutation(indices(n)).Draw(t, "order")
+		hdr := map[int]bool{}
+		for _, id := range ids {
+			hdr[stack.HeaderLen(stack.Layer{Mux: kind, Chan: id})] = true
+		}
+		desc := fmt.Sprintf("kind=%s inner=%d ids=%q order=%v", kind, inner, shortIDs(ids), order)
+		ev.Eval(sub)
+		if len(hdr) >= 2 {
+			if ev.NonTrivial(sub, desc) {
+				ev.Sample(sub, desc)
+			}
+		}
+		fail := func(f string, args ...any) { t.Fatalf("%s\ncase: %s", fmt.Sprintf(f, args...), desc) }
+		for _, ci := range order {
+			ch := ca[ci]
+			mtu := ch.MTU()
+			want := inner - stack.HeaderLen(stack.Layer{Mux: kind, Chan: ids[ci]})
+			_ = want
+			for _, d := range []int{-1, 0, 1} {
+				L := mtu + d
+				if L < 0 {
+					continue
+				}
+				payload := bytes.Repeat([]byte{byte('A' + ci)}, L)
+				useAsk := rapid.Bool().Draw(t, "ask")
+				before := a.Recs[0].SizeRejections()
+				tctx, cf := context.WithTimeout(ctx, 2*time.Second)
+				var err error
+				if useAsk {
+					_, err = ch.(stack.AskBidi).Ask(tctx, make([]byte, 16), b.Local(), p2p.IOVec{payload})
+				} else {
+					err = ch.Tell(tctx, b.Local(), p2p.IOVec{payload})
+				}
+				cf()
+				if d <= 0 {
+					if p2p.IsErrMTUExceeded(err) {
+						fail("channel %q: %d bytes <= MTU() %d refused with the MTU error", ids[ci], L, mtu)
+					}
+					if a.Recs[0].SizeRejections() > before {
+						fail("channel %q: %d bytes <= MTU() %d was refused for size by the transport beneath (inner MTU %d)", ids[ci], L, mtu, inner)
+					}
+				} else if !p2p.IsErrMTUExceeded(err) {
+					fail("channel %q: %d bytes > MTU() %d returned %v, want the MTU error", ids[ci], L, mtu, err)
+				}
+			}
+		}
+		time.Sleep(5 * time.Millisecond)
+		tells, asks := cr.snapshot()
+		for ci := range ids {
+			for _, p := range append(tells[ci], asks[ci]...) {
+				for _, c := range p {
+					if c != byte('A'+ci) {
+						fail("channel %q received a payload that was told on another channel or damaged", ids[ci])
+					}
+				}
+			}
+		}
+	})
+}
